@@ -220,12 +220,14 @@ pub struct GoSpec {
     pub slice_ms: u16,
     pub mtg: Option<u8>,
     pub inc: Option<u16>,
+    /// the OTHER side's clock: kept below 12 s so that an engine that wrongly uses it still answers
+    /// within a third of a second per go (the run stays bounded; the pure part judges the policy)
     pub other: u32,
     pub order: u8,
     pub noise: u8,
 }
 pub fn go_spec_strategy(max_slice: u16) -> impl Strategy<Value = GoSpec> {
-    (prop_oneof![2 => Just(0u8), 2 => Just(1u8), 2 => Just(2u8), 4 => Just(3u8), 4 => Just(4u8)], 1u16..=max_slice.max(2), prop_oneof![2 => Just(None), 3 => (1u8..=40).prop_map(Some)], prop_oneof![3 => Just(None), 1 => (0u16..200).prop_map(Some)], 0u32..600_000, any::<u8>(), any::<u8>())
+    (prop_oneof![2 => Just(0u8), 2 => Just(1u8), 2 => Just(2u8), 4 => Just(3u8), 4 => Just(4u8)], 1u16..=max_slice.max(2), prop_oneof![2 => Just(None), 3 => (1u8..=40).prop_map(Some)], prop_oneof![3 => Just(None), 1 => (0u16..200).prop_map(Some)], 0u32..12_000, any::<u8>(), any::<u8>())
         .prop_map(|(kind, slice_ms, mtg, inc, other, order, noise)| GoSpec { kind, slice_ms, mtg, inc, other, order, noise })
 }
 const GO_NOISE: [&str; 6] = ["infinite", "ponder", "depth 4", "movetime 50", "nodes 1000", "searchmoves e2e4"];
